@@ -55,8 +55,8 @@ def run(ctx):
                        'concurrent chain_sorted rings and sort inputs use pairwise distinct priorities so that the model result is unique',
                        'histories above the WGL node budget are inconclusive, not violations']
     nseq = 400000 if thorough else 3000
-    nh = 25000 if thorough else 330
-    rounds = 4000000 if thorough else 120000
+    nh = 6000 if thorough else 330
+    rounds = 2000000 if thorough else 120000
     jobs = []
     n = 0
     for flavour in ('asan', 'rel'):
